@@ -122,6 +122,9 @@ func printFnResult(r *fnResult, verbose bool) int {
 	if r.Variant != "" {
 		name = r.Variant + ":" + name
 	}
+	if r.Skipped != "" {
+		return 0
+	}
 	if r.Err != "" {
 		fmt.Printf("%-44s [%s] NOT GENERATED: %s\n", name, r.Mode, r.Err)
 		return 1
